@@ -315,6 +315,12 @@ def gen_op(ctx, shadow, at=None, ps_choices=None, engine_ports=None):
             tbase = None if tbase is None else tuple(tbase) + target[1:]
         if tbase is None or tuple(tbase[:len(b) + 1]) == b + (key,):
             return None          # moving a node into its own subtree makes the hierarchy cyclic
+        try:
+            tnode = shadow.get_path(tuple(tbase))
+            if key in tnode.inner and _procs(node.inner[key]):
+                return None      # collision at the target with a process inside the moved subtree
+        except Exception:
+            pass
         mv = {'source': key if rng.random() < 0.8 else (key,), 'target': target}
         if rng.random() < 0.2:
             src = node.inner[key]
@@ -376,6 +382,12 @@ def gen_update(ctx, shadow, at=None, engine_ports=None):
         if o is None:
             continue
         b, u, name, p = o
+        # the model identifies the process store (`state`) of a `_move` by its path: an update
+        # that moves and also removes nodes could remove that store (or an ancestor) first
+        if name == 'move' and any(x in ('move', 'delete', 'delete-tuple', 'divide') for x in ops):
+            continue
+        if 'move' in ops and name in ('move', 'delete', 'delete-tuple', 'divide'):
+            continue
         if p is not None:
             if ps is not None and ps != p:
                 continue
